@@ -461,6 +461,10 @@ def run_builtin_case(seed):
 
 
 
+def two_dirs_chef(seed):
+    return core.two_dirs_case(PID, 'chef', seed)
+
+
 def run(tier, seed):
     rep = core.Report(PID, tier, seed)
     pg = core.proof_gate(PID, thorough=(tier == 'thorough'))
@@ -475,6 +479,8 @@ def run(tier, seed):
         rep.merge(r)
     nb = 12 if tier == 'quick' else 150
     for r in core.run_cases(run_builtin_case, [seed * 100000 + 11500 + i for i in range(nb)]):
+        rep.merge(r)
+    for r in core.run_cases(two_dirs_chef, [seed * 100000 + 99000 + i for i in range(1 if tier == 'quick' else 4)]):
         rep.merge(r)
     rep.obligation('correspondence: Writers.Chef.chef (recipe = table of the Python recipe\'s per-box results) = output directory of '
                    'Chef.cook (binary files byte for byte, level headers token for token with min/max by value)',
